@@ -64,11 +64,14 @@ type ltr struct {
 	lines   []lline
 	cnt     map[string]int
 	inputs  []string // function inputs, in order
+	inRef   []limbRef // for every input: Go parameter (or receiver) name and limb index (-1: scalar)
 	inSet   map[string]bool
 	segs    [][]lline // closed segments
 	depth   int       // inlining depth
 	splitRe *regexp.Regexp
 	src     []byte
+	bm      *bytesMode            // non-nil: byte-conversion pass (bytes.go) — extra value kinds and calls
+	curCont func() *lresult       // bytes pass: what follows the innermost enclosing `if` whose body returns on some paths only
 }
 
 func (x *ltr) newCell(v *lval) int {
@@ -198,6 +201,11 @@ func (x *ltr) scalarConst(e ast.Expr) int {
 func wrapTerm(t string, w int) string { return fmt.Sprintf("(%s) %% %s", t, pow2(w).String()) }
 
 func (x *ltr) eval(e ast.Expr) any {
+	if x.bm != nil {
+		if r, ok := x.bytesEval(e); ok {
+			return r
+		}
+	}
 	switch v := e.(type) {
 	case *ast.ParenExpr:
 		return x.eval(v.X)
@@ -212,6 +220,10 @@ func (x *ltr) eval(e ast.Expr) any {
 				return x.store[c]
 			case *larr:
 				return c
+			default:
+				if x.bm != nil {
+					return r
+				}
 			}
 		}
 		if c := x.constant(v.Name); c != nil {
@@ -346,6 +358,14 @@ func (x *ltr) binary(v *ast.BinaryExpr) *lval {
 		t = fmt.Sprintf("(%s * %s) %% %s", a.term, pow2(int(b.lit.Int64())).String(), W)
 	case token.SHR:
 		t = fmt.Sprintf("%s / %s", a.term, pow2(int(b.lit.Int64())).String())
+	case token.REM:
+		if x.bm == nil {
+			lreject("unsupported operator in %s", x.text(v))
+		}
+		t = fmt.Sprintf("%s %% %s", a.term, b.term) // Go's % on unsigned words is Nat's % (x % 0 panics in Go: the divisor must be a non-zero literal)
+		if b.lit == nil || b.lit.Sign() == 0 {
+			lreject("%% by a non-literal or zero: %s", x.text(v))
+		}
 	default:
 		lreject("unsupported operator in %s", x.text(v))
 	}
@@ -367,6 +387,11 @@ func (x *ltr) callNamed(c *ast.CallExpr, dst []string) []any {
 			return dst[i]
 		}
 		return def
+	}
+	if x.bm != nil {
+		if rs, ok := x.bytesCall(c, dst); ok {
+			return rs
+		}
 	}
 	// conversions
 	if id, ok := c.Fun.(*ast.Ident); ok && (id.Name == "uint64" || id.Name == "uint32") && len(c.Args) == 1 {
@@ -466,16 +491,33 @@ func (x *ltr) inline(f *limbFn, recv *larr, args []ast.Expr) []any {
 	x.scopes = []map[string]any{{}}
 	x.src = fileSrc[f.file]
 	x.splitRe = nil
+	savedCont := x.curCont
+	x.curCont = nil
 	d := f.decl
 	if d.Recv != nil && len(d.Recv.List) == 1 && len(d.Recv.List[0].Names) == 1 {
 		x.declare(d.Recv.List[0].Names[0].Name, recv)
 	}
 	i := 0
 	for _, p := range d.Type.Params.List {
+		if x.bm != nil && x.isByteArrayPtr(p.Type) {
+			for _, nmI := range p.Names {
+				if i >= len(av) {
+					lreject("%s: arity", f.name)
+				}
+				ba, ok := av[i].(*lbarr)
+				if !ok {
+					lreject("%s: byte array expected", f.name)
+				}
+				x.declare(nmI.Name, ba)
+				i++
+			}
+			continue
+		}
 		w, n, ok := x.typeWidth(p.Type)
 		if !ok {
 			lreject("%s: unsupported parameter type", f.name)
 		}
+		_, isPtr := p.Type.(*ast.StarExpr)
 		for _, nmI := range p.Names {
 			if i >= len(av) {
 				lreject("%s: arity", f.name)
@@ -484,6 +526,14 @@ func (x *ltr) inline(f *limbFn, recv *larr, args []ast.Expr) []any {
 			case *larr:
 				if n == 0 {
 					lreject("%s: array passed for scalar", f.name)
+				}
+				if !isPtr {
+					// an array passed BY VALUE (`e Element`): the callee works on a copy
+					cp := &larr{w: a.w}
+					for _, c := range a.cells {
+						cp.cells = append(cp.cells, x.newCell(x.store[c]))
+					}
+					a = cp
 				}
 				x.declare(nmI.Name, a)
 			case *lval:
@@ -504,6 +554,13 @@ func (x *ltr) inline(f *limbFn, recv *larr, args []ast.Expr) []any {
 	var named []string
 	if d.Type.Results != nil {
 		for _, r := range d.Type.Results.List {
+			if x.bm != nil && x.isByteArray(r.Type) {
+				for _, nmI := range r.Names {
+					x.declare(nmI.Name, x.zeroBytes())
+					named = append(named, nmI.Name)
+				}
+				continue
+			}
 			w, n, ok := x.typeWidth(r.Type)
 			for _, nmI := range r.Names {
 				if !ok || n != 0 {
@@ -516,6 +573,7 @@ func (x *ltr) inline(f *limbFn, recv *larr, args []ast.Expr) []any {
 	}
 	res := x.execFunc(d.Body.List, named)
 	x.scopes = saved
+	x.curCont = savedCont
 	x.src, x.splitRe = savedSrc, savedRe
 	x.depth--
 	return res
@@ -538,7 +596,12 @@ func (x *ltr) mkResult(es []ast.Expr, named []string) *lresult {
 	r := &lresult{}
 	if len(es) == 0 {
 		for _, n := range named {
-			r.vals = append(r.vals, x.store[x.lookup(n).(int)])
+			switch c := x.lookup(n).(type) {
+			case int:
+				r.vals = append(r.vals, x.store[c])
+			default:
+				r.vals = append(r.vals, c)
+			}
 		}
 	}
 	for _, e := range es {
@@ -628,8 +691,32 @@ func (x *ltr) mergeResults(c *lval, a, b *lresult) *lresult {
 	for i := range a.vals {
 		switch va := a.vals[i].(type) {
 		case *larr:
-			if vb, ok := b.vals[i].(*larr); !ok || vb != va {
+			vb, ok := b.vals[i].(*larr)
+			if ok && vb == va {
+				r.vals = append(r.vals, va)
+				break
+			}
+			if !ok || x.bm == nil || len(va.cells) != len(vb.cells) {
 				lreject("merge: different arrays returned")
+			}
+			// two different arrays returned BY VALUE (`return Element{}, err` / `return z, nil`): a fresh array of merged cells
+			m := &larr{w: va.w}
+			for k := range va.cells {
+				ca, cb := a.snap[va.cells[k]], b.snap[vb.cells[k]]
+				var mv *lval
+				if ca.term == cb.term {
+					mv = ca
+				} else {
+					mv = x.emit(fmt.Sprintf("ret%d", k), fmt.Sprintf("if %s then %s else %s", c.term, ca.term, cb.term), ca.w, ca.bit && cb.bit, mergeDeps(c, ca, cb))
+				}
+				id := x.newCell(mv)
+				r.snap[id] = mv
+				m.cells = append(m.cells, id)
+			}
+			r.vals = append(r.vals, m)
+		case *lbarr:
+			if vb, ok := b.vals[i].(*lbarr); !ok || vb != va {
+				lreject("merge: different byte arrays returned")
 			}
 			r.vals = append(r.vals, va)
 		case *lval:
@@ -667,9 +754,40 @@ func (x *ltr) execList(stmts []ast.Stmt, named []string, top bool) *lresult {
 				lreject("non-bool condition")
 			}
 			before := copyStore(x.store)
+			prevCont := x.curCont
+			if x.bm != nil && containsReturn(st.Body) {
+				// the body returns on some paths only (`if a { …; if b { return }; … }; rest`): where the body falls through, the
+				// statements after this `if` (then whatever follows the enclosing one) are executed
+				outerRest := stmts[i+1:]
+				if ei, ok := st.Else.(*ast.IfStmt); ok {
+					_ = ei
+					lreject("else-if after a body with a nested return")
+				}
+				if st.Else != nil {
+					lreject("else after a body with a nested return")
+				}
+				scopes := append([]map[string]any{}, x.scopes...)
+				x.curCont = func() *lresult {
+					saved, savedC := x.scopes, x.curCont
+					x.scopes, x.curCont = scopes, prevCont
+					r := x.execList(outerRest, named, top)
+					if r == nil {
+						if prevCont != nil {
+							r = prevCont()
+						} else if top {
+							r = x.mkResult(nil, named)
+						} else {
+							lreject("early return inside a nested block")
+						}
+					}
+					x.scopes, x.curCont = saved, savedC
+					return r
+				}
+			}
 			x.push()
 			rThen := x.execList(st.Body.List, named, false)
 			x.pop()
+			x.curCont = prevCont
 			thenStore := x.store
 			x.store = copyStore(before)
 			var rElse *lresult
@@ -697,10 +815,13 @@ func (x *ltr) execList(stmts []ast.Stmt, named []string, top bool) *lresult {
 				// the rest of the list is the else-continuation
 				rRest := x.execList(rest, named, false)
 				if rRest == nil {
-					if !top {
+					if x.curCont != nil {
+						rRest = x.curCont()
+					} else if top {
+						rRest = x.mkResult(nil, named)
+					} else {
 						lreject("early return inside a nested block")
 					}
-					rRest = x.mkResult(nil, named)
 				}
 				return x.mergeResults(c, rThen, rRest)
 			case rThen != nil && rElse != nil:
@@ -720,6 +841,20 @@ func (x *ltr) execList(stmts []ast.Stmt, named []string, top bool) *lresult {
 			}
 		case *ast.DeclStmt:
 			gd := st.Decl.(*ast.GenDecl)
+			if gd.Tok == token.CONST && x.bm != nil {
+				for _, sp := range gd.Specs {
+					vs := sp.(*ast.ValueSpec)
+					if len(vs.Names) != 1 || len(vs.Values) != 1 || vs.Type != nil {
+						lreject("unsupported const declaration %s", x.text(st))
+					}
+					n := litInt(vs.Values[0])
+					if n == nil {
+						lreject("unsupported const declaration %s", x.text(st))
+					}
+					x.declare(vs.Names[0].Name, x.newCell(litVal(n, 0)))
+				}
+				continue
+			}
 			if gd.Tok != token.VAR {
 				lreject("unsupported declaration %s", x.text(st))
 			}
@@ -841,6 +976,24 @@ func (x *ltr) assign(st *ast.AssignStmt) {
 		x.store1(st.Lhs[0], r, false)
 		return
 	}
+	if x.bm != nil && len(st.Lhs) == 1 && len(st.Rhs) == 1 {
+		if se, ok := st.Lhs[0].(*ast.StarExpr); ok && !define {
+			// `*z = v`, `*z = Element{v}`: element-wise copy into the array z points to
+			dst, ok1 := x.eval(se.X).(*larr)
+			srcA, ok2 := x.eval(st.Rhs[0]).(*larr)
+			if !ok1 || !ok2 || len(dst.cells) != len(srcA.cells) {
+				lreject("unsupported assignment %s", x.text(st))
+			}
+			var vs []*lval
+			for _, c := range srcA.cells {
+				vs = append(vs, x.store[c])
+			}
+			for k, c := range dst.cells {
+				x.store[c] = vs[k]
+			}
+			return
+		}
+	}
 	var names []string
 	for _, l := range st.Lhs {
 		names = append(names, x.targetName(l))
@@ -890,6 +1043,12 @@ func (x *ltr) assign(st *ast.AssignStmt) {
 				cp.cells = append(cp.cells, x.newCell(x.store[c]))
 			}
 			x.declare(id.Name, cp)
+		default:
+			id, ok := l.(*ast.Ident)
+			if x.bm == nil || !ok || !define {
+				lreject("unsupported assignment %s", x.text(st))
+			}
+			x.declare(id.Name, v)
 		}
 	}
 }
@@ -1056,6 +1215,7 @@ func translateLimb(fc *fieldConsts, fset *token.FileSet, fns map[string]*limbFn,
 		}
 		if n == 0 {
 			x.inputs = append(x.inputs, name)
+			x.inRef = append(x.inRef, limbRef{name, -1})
 			x.declare(name, x.newCell(&lval{term: name, w: w, deps: []string{name}}))
 			return
 		}
@@ -1064,6 +1224,7 @@ func translateLimb(fc *fieldConsts, fset *token.FileSet, fns map[string]*limbFn,
 		for i := 0; i < n; i++ {
 			in := fmt.Sprintf("%s%d", name, i)
 			x.inputs = append(x.inputs, in)
+			x.inRef = append(x.inRef, limbRef{name, i})
 			ap.init = append(ap.init, in)
 			a.cells = append(a.cells, x.newCell(&lval{term: in, w: w, deps: []string{in}}))
 		}
@@ -1096,6 +1257,7 @@ func translateLimb(fc *fieldConsts, fset *token.FileSet, fns map[string]*limbFn,
 	// outputs: written array parameters (all limbs), then scalar results
 	var outs []*lval
 	prop := false
+	sig := &limbSig{lean: tg.lean}
 	for _, ap := range arrs {
 		written := false
 		for i, c := range ap.a.cells {
@@ -1107,6 +1269,7 @@ func translateLimb(fc *fieldConsts, fset *token.FileSet, fns map[string]*limbFn,
 			for _, c := range ap.a.cells {
 				outs = append(outs, x.store[c])
 			}
+			sig.outArrs = append(sig.outArrs, ap.name)
 		}
 	}
 	for _, v := range vals {
@@ -1182,10 +1345,18 @@ func translateLimb(fc *fieldConsts, fset *token.FileSet, fns map[string]*limbFn,
 		}
 	}
 	var params []string
-	for _, n := range x.inputs {
+	for i, n := range x.inputs {
 		if usedInputs[n] {
 			params = append(params, n)
+			sig.params = append(sig.params, x.inRef[i])
 		}
+	}
+	sig.prop, sig.nOut = prop, len(outs)
+	if limbSigs[fc.dir] == nil {
+		limbSigs[fc.dir] = map[string]*limbSig{}
+	}
+	if !tg.ext {
+		limbSigs[fc.dir][tg.fn] = sig
 	}
 	var outTerms []string
 	for _, o := range outs {
